@@ -664,6 +664,22 @@ func (g *psGen) step() {
 		})
 	}
 	if len(g.vars) > 0 {
+		// a name given a new value without def or put: by copying a dictionary
+		// that holds it into the current one
+		add(1, func() {
+			i := t.Choose(len(g.vars))
+			if g.vars[i].k == kP {
+				return
+			}
+			g.op("<<")
+			g.emitD("/"+g.vars[i].name, true, false)
+			g.emit(strconv.Itoa(100 + t.Choose(900)))
+			g.op(">>")
+			g.op("currentdict")
+			g.op("copy")
+			g.op("pop")
+			g.vars[i].k = kI
+		})
 		add(5, g.useVar)
 		add(1, func() {
 			v := sim.Pick(t, g.vars)
